@@ -1,6 +1,1138 @@
-//! C05 — not built yet.
+//! C05 — RRset signed data equals the RFC 4034/4035 canonical form.
+//!
+//! Runs `TBS::from_input` (and `DNSKEY::verify_rrsig`, the built-in signer) on generated RRsets and
+//! RRSIG parameter tuples.  Ops (all but `rdata` share the argument format
+//! `NAME CLS TYPE ALG LABELS ORIGTTL EXP INC TAG SIGNER REC*`, `REC = NAME/TYPE/CLS/TTL/RDATA`):
+//!
+//! * `tbs`   implementation: `TBS::from_input(..).as_ref()`; model: `Tbs.tbsImpl`; oracle: the
+//!           independent reference encoder below (RFC 4035 §5.3.2 + RFC 4034 §6)
+//! * `spec`  "implementation" side is the Rust reference encoder, model side is `Spec.signedData`
+//!           (ties the Lean spec to the oracle actually used)
+//! * `class` the three deviation-class flags as computed here vs the Lean predicates
+//! * `rdata TYPE RDATA`  `to_bytes()` sort key and canonical RDATA of one record vs the model;
+//!           oracle: canonical RDATA = RFC 4034 §6.2 form computed by the reference
+//! * `sv`    implementation only: for every supported algorithm a conforming third-party signer
+//!           (ring over the *reference* bytes) must verify with `DNSKEY::verify_rrsig`, and the
+//!           built-in signer must verify with the built-in verifier (also with the records reversed)
+use std::collections::BTreeSet;
+use std::net::{Ipv4Addr, Ipv6Addr};
+use std::sync::OnceLock;
+
+use hickory_proto::dnssec::crypto::{EcdsaSigningKey, Ed25519SigningKey, RsaSigningKey};
+use hickory_proto::dnssec::rdata::{DNSKEY, RRSIG, SigInput};
+use hickory_proto::dnssec::{Algorithm, SigningKey, TBS, Verifier};
+use hickory_proto::rr::rdata::{A, AAAA, CNAME, MX, NS, PTR, SOA, SRV, TXT};
+use hickory_proto::rr::{DNSClass, Name, RData, Record, RecordType, SerialNumber};
+use hickory_proto::serialize::binary::{BinDecoder, BinEncodable, BinEncoder, NameEncoding};
+use rustls_pki_types::PrivatePkcs8KeyDer;
+
 use crate::common::*;
 
-pub fn run(_o: &Opts, rec: &mut Recorder) {
-    rec.rule = "stub".into();
+// ------------------------------------------------------------------ own representation
+
+#[derive(Clone, Debug, PartialEq, Eq)]
+pub struct N {
+    pub labels: Vec<Vec<u8>>,
+    pub fqdn: bool,
+}
+
+#[derive(Clone, Debug)]
+pub enum RD {
+    A(Vec<u8>),
+    Aaaa(Vec<u8>),
+    Ns(N),
+    Cname(N),
+    Ptr(N),
+    Mx(u16, N),
+    Soa(N, N, u32, u32, u32, u32, u32),
+    Srv(u16, u16, u16, N),
+    Txt(Vec<Vec<u8>>),
+    /// any other type: raw wire RDATA (types whose canonical form is the wire form)
+    Op(Vec<u8>),
+}
+
+#[derive(Clone, Debug)]
+pub struct Rec {
+    pub name: N,
+    pub rtype: u16,
+    pub cls: u16,
+    pub ttl: u32,
+    pub rd: RD,
+}
+
+#[derive(Clone, Debug)]
+pub struct Case {
+    pub name: N,
+    pub cls: u16,
+    pub tc: u16,
+    pub alg: u8,
+    pub labels: u8,
+    pub ottl: u32,
+    pub exp: u32,
+    pub inc: u32,
+    pub tag: u16,
+    pub signer: N,
+    pub recs: Vec<Rec>,
+}
+
+impl N {
+    pub fn tok(&self) -> String {
+        format!("{}:{}", if self.fqdn { "F" } else { "R" }, labels_tok(&self.labels))
+    }
+    pub fn parse(t: &str) -> Option<N> {
+        let (f, rest) = t.split_once(':')?;
+        let fqdn = match f {
+            "F" => true,
+            "R" => false,
+            _ => return None,
+        };
+        Some(N { labels: parse_labels(rest)?, fqdn })
+    }
+    pub fn to_name(&self) -> Option<Name> {
+        parse_name(&self.tok())
+    }
+    pub fn lower_labels(&self) -> Vec<Vec<u8>> {
+        self.labels.iter().map(|l| lower(l)).collect()
+    }
+    /// RFC 4034 §6.2: uncompressed, lower case
+    fn wire_lower(&self) -> Vec<u8> {
+        wire(&self.lower_labels())
+    }
+    fn is_lower(&self) -> bool {
+        self.labels.iter().all(|l| lower(l) == *l)
+    }
+}
+
+pub fn lower(l: &[u8]) -> Vec<u8> {
+    l.iter().map(|b| if (b'A'..=b'Z').contains(b) { b + 32 } else { *b }).collect()
+}
+
+pub fn wire(labels: &[Vec<u8>]) -> Vec<u8> {
+    let mut o = vec![];
+    for l in labels {
+        o.push(l.len() as u8);
+        o.extend_from_slice(l);
+    }
+    o.push(0);
+    o
+}
+
+const T_A: u16 = 1;
+const T_NS: u16 = 2;
+const T_CNAME: u16 = 5;
+const T_SOA: u16 = 6;
+const T_PTR: u16 = 12;
+const T_MX: u16 = 15;
+const T_TXT: u16 = 16;
+const T_AAAA: u16 = 28;
+const T_SRV: u16 = 33;
+
+impl RD {
+    fn tier_type(&self) -> Option<u16> {
+        Some(match self {
+            RD::A(_) => T_A,
+            RD::Aaaa(_) => T_AAAA,
+            RD::Ns(_) => T_NS,
+            RD::Cname(_) => T_CNAME,
+            RD::Ptr(_) => T_PTR,
+            RD::Mx(..) => T_MX,
+            RD::Soa(..) => T_SOA,
+            RD::Srv(..) => T_SRV,
+            RD::Txt(_) => T_TXT,
+            RD::Op(_) => return None,
+        })
+    }
+
+    /// the token; for `Op` the key / canonical bytes computed by the real code are appended
+    fn tok(&self, rtype: u16) -> Option<String> {
+        Some(match self {
+            RD::A(o) => format!("a,{}", hex(o)),
+            RD::Aaaa(o) => format!("aaaa,{}", hex(o)),
+            RD::Ns(n) => format!("ns,{}", n.tok()),
+            RD::Cname(n) => format!("cname,{}", n.tok()),
+            RD::Ptr(n) => format!("ptr,{}", n.tok()),
+            RD::Mx(p, n) => format!("mx,{p},{}", n.tok()),
+            RD::Soa(m, r, s, rf, rt, e, mi) => format!("soa,{},{},{s},{rf},{rt},{e},{mi}", m.tok(), r.tok()),
+            RD::Srv(p, w, po, t) => format!("srv,{p},{w},{po},{}", t.tok()),
+            RD::Txt(ss) => format!("txt,{}", ss.iter().map(|s| hex(s)).collect::<Vec<_>>().join(";")),
+            RD::Op(raw) => {
+                let rd = self.to_rdata(rtype)?;
+                let c = match real_canon(&rd) {
+                    Some(c) => hex(&c),
+                    None => "!".into(),
+                };
+                format!("op,{},{},{}", hex(raw), hex(&real_key(&rd)), c)
+            }
+        })
+    }
+
+    fn parse(t: &str) -> Option<RD> {
+        let f: Vec<&str> = t.split(',').collect();
+        Some(match f.as_slice() {
+            ["a", h] => RD::A(unhex(h)?),
+            ["aaaa", h] => RD::Aaaa(unhex(h)?),
+            ["ns", n] => RD::Ns(N::parse(n)?),
+            ["cname", n] => RD::Cname(N::parse(n)?),
+            ["ptr", n] => RD::Ptr(N::parse(n)?),
+            ["mx", p, n] => RD::Mx(p.parse().ok()?, N::parse(n)?),
+            ["soa", m, r, s, rf, rt, e, mi] => RD::Soa(
+                N::parse(m)?,
+                N::parse(r)?,
+                s.parse().ok()?,
+                rf.parse().ok()?,
+                rt.parse().ok()?,
+                e.parse().ok()?,
+                mi.parse().ok()?,
+            ),
+            ["srv", p, w, po, n] => RD::Srv(p.parse().ok()?, w.parse().ok()?, po.parse().ok()?, N::parse(n)?),
+            ["txt", ss] => RD::Txt(if ss.is_empty() {
+                vec![]
+            } else {
+                ss.split(';').map(unhex).collect::<Option<Vec<_>>>()?
+            }),
+            ["op", raw] | ["op", raw, _, _] => RD::Op(unhex(raw)?),
+            _ => return None,
+        })
+    }
+
+    fn to_rdata(&self, rtype: u16) -> Option<RData> {
+        if let Some(t) = self.tier_type() {
+            if t != rtype {
+                return None;
+            }
+        }
+        Some(match self {
+            RD::A(o) => {
+                let o: [u8; 4] = o.as_slice().try_into().ok()?;
+                RData::A(A(Ipv4Addr::from(o)))
+            }
+            RD::Aaaa(o) => {
+                let o: [u8; 16] = o.as_slice().try_into().ok()?;
+                RData::AAAA(AAAA(Ipv6Addr::from(o)))
+            }
+            RD::Ns(n) => RData::NS(NS(n.to_name()?)),
+            RD::Cname(n) => RData::CNAME(CNAME(n.to_name()?)),
+            RD::Ptr(n) => RData::PTR(PTR(n.to_name()?)),
+            RD::Mx(p, n) => RData::MX(MX::new(*p, n.to_name()?)),
+            RD::Soa(m, r, s, rf, rt, e, mi) => {
+                RData::SOA(SOA::new(m.to_name()?, r.to_name()?, *s, *rf as i32, *rt as i32, *e as i32, *mi))
+            }
+            RD::Srv(p, w, po, t) => RData::SRV(SRV::new(*p, *w, *po, t.to_name()?)),
+            RD::Txt(ss) => RData::TXT(TXT::from_bytes(ss.iter().map(|s| &s[..]).collect())),
+            RD::Op(raw) => {
+                if [T_A, T_NS, T_CNAME, T_SOA, T_PTR, T_MX, T_TXT, T_AAAA, T_SRV].contains(&rtype) {
+                    return None;
+                }
+                let rd = RData::read(BinDecoder::new(raw), RecordType::from(rtype)).ok()?;
+                if u16::from(rd.record_type()) != rtype {
+                    return None;
+                }
+                rd
+            }
+        })
+    }
+
+    /// RFC 4034 §6.2 canonical RDATA, written from the RFCs (independent of hickory's encoders).
+    /// `None`: no wire form (character-string longer than 255).
+    pub fn ref_canon(&self) -> Option<Vec<u8>> {
+        Some(match self {
+            RD::A(o) | RD::Aaaa(o) | RD::Op(o) => o.clone(),
+            RD::Ns(n) | RD::Cname(n) | RD::Ptr(n) => n.wire_lower(),
+            RD::Mx(p, n) => [&p.to_be_bytes()[..], &n.wire_lower()].concat(),
+            RD::Soa(m, r, s, rf, rt, e, mi) => {
+                let mut o = m.wire_lower();
+                o.extend(r.wire_lower());
+                for x in [s, rf, rt, e, mi] {
+                    o.extend(x.to_be_bytes());
+                }
+                o
+            }
+            RD::Srv(p, w, po, t) => {
+                let mut o = vec![];
+                for x in [p, w, po] {
+                    o.extend(x.to_be_bytes());
+                }
+                o.extend(t.wire_lower());
+                o
+            }
+            RD::Txt(ss) => {
+                let mut o = vec![];
+                for s in ss {
+                    if s.len() > 255 {
+                        return None;
+                    }
+                    o.push(s.len() as u8);
+                    o.extend_from_slice(s);
+                }
+                o
+            }
+        })
+    }
+}
+
+/// `RData::to_bytes()` is private; it is `emit` into a fresh default encoder, errors ignored.
+fn real_key(rd: &RData) -> Vec<u8> {
+    let mut buf = Vec::new();
+    {
+        let mut enc = BinEncoder::new(&mut buf);
+        let _ = rd.emit(&mut enc);
+    }
+    buf
+}
+
+/// RDATA as `TBS::new` emits it: `canonical_form = true`, uncompressed
+fn real_canon(rd: &RData) -> Option<Vec<u8>> {
+    let mut buf = Vec::new();
+    let ok = {
+        let mut enc = BinEncoder::new(&mut buf);
+        enc.canonical_form = true;
+        enc.name_encoding = NameEncoding::Uncompressed;
+        rd.emit(&mut enc).is_ok()
+    };
+    ok.then_some(buf)
+}
+
+impl Rec {
+    pub fn tok(&self) -> Option<String> {
+        Some(format!("{}/{}/{}/{}/{}", self.name.tok(), self.rtype, self.cls, self.ttl, self.rd.tok(self.rtype)?))
+    }
+    pub fn parse(t: &str) -> Option<Rec> {
+        let f: Vec<&str> = t.split('/').collect();
+        let [n, ty, c, ttl, rd] = f.as_slice() else { return None };
+        Some(Rec { name: N::parse(n)?, rtype: ty.parse().ok()?, cls: c.parse().ok()?, ttl: ttl.parse().ok()?, rd: RD::parse(rd)? })
+    }
+    pub fn to_record(&self) -> Option<Record> {
+        let mut r = Record::from_rdata(self.name.to_name()?, self.ttl, self.rd.to_rdata(self.rtype)?);
+        r.dns_class = DNSClass::from(self.cls);
+        Some(r)
+    }
+}
+
+impl Case {
+    pub fn args(&self) -> Option<String> {
+        let mut s = format!(
+            "{} {} {} {} {} {} {} {} {} {}",
+            self.name.tok(),
+            self.cls,
+            self.tc,
+            self.alg,
+            self.labels,
+            self.ottl,
+            self.exp,
+            self.inc,
+            self.tag,
+            self.signer.tok()
+        );
+        for r in &self.recs {
+            s.push(' ');
+            s.push_str(&r.tok()?);
+        }
+        Some(s)
+    }
+
+    pub fn parse(t: &[&str]) -> Option<Case> {
+        if t.len() < 10 {
+            return None;
+        }
+        Some(Case {
+            name: N::parse(t[0])?,
+            cls: t[1].parse().ok()?,
+            tc: t[2].parse().ok()?,
+            alg: t[3].parse().ok()?,
+            labels: t[4].parse().ok()?,
+            ottl: t[5].parse().ok()?,
+            exp: t[6].parse().ok()?,
+            inc: t[7].parse().ok()?,
+            tag: t[8].parse().ok()?,
+            signer: N::parse(t[9])?,
+            recs: t[10..].iter().map(|r| Rec::parse(r)).collect::<Option<Vec<_>>>()?,
+        })
+    }
+
+    pub fn input(&self) -> Option<SigInput> {
+        Some(SigInput {
+            type_covered: RecordType::from(self.tc),
+            algorithm: Algorithm::from_u8(self.alg),
+            num_labels: self.labels,
+            original_ttl: self.ottl,
+            sig_expiration: SerialNumber::new(self.exp),
+            sig_inception: SerialNumber::new(self.inc),
+            key_tag: self.tag,
+            signer_name: self.signer.to_name()?,
+        })
+    }
+
+    /// the RRset the case is about: same class, type covered, owner equal up to ASCII case
+    pub fn rrset(&self) -> Vec<&Rec> {
+        self.recs
+            .iter()
+            .filter(|r| {
+                r.cls == self.cls
+                    && r.rtype == self.tc
+                    && r.name.fqdn == self.name.fqdn
+                    && r.name.lower_labels() == self.name.lower_labels()
+            })
+            .collect()
+    }
+
+    pub fn owner_label_count(&self) -> usize {
+        let n = self.name.labels.len();
+        if self.name.labels.first().map(|l| l == b"*").unwrap_or(false) { n - 1 } else { n }
+    }
+
+    /// RFC 4035 §5.3.2 "to calculate the name", canonical wire form
+    fn ref_owner(&self) -> Option<Vec<u8>> {
+        let fqdn = self.name.lower_labels();
+        let cnt = self.owner_label_count();
+        let l = self.labels as usize;
+        if l == cnt {
+            Some(wire(&fqdn))
+        } else if l < cnt {
+            let mut ls = vec![b"*".to_vec()];
+            ls.extend_from_slice(&fqdn[fqdn.len() - l..]);
+            Some(wire(&ls))
+        } else {
+            None
+        }
+    }
+
+    fn ref_prefix(&self) -> Vec<u8> {
+        let mut o = vec![];
+        o.extend(self.tc.to_be_bytes());
+        o.push(self.alg);
+        o.push(self.labels);
+        o.extend(self.ottl.to_be_bytes());
+        o.extend(self.exp.to_be_bytes());
+        o.extend(self.inc.to_be_bytes());
+        o.extend(self.tag.to_be_bytes());
+        o.extend(self.signer.wire_lower());
+        o
+    }
+
+    fn ref_rr(&self, owner: &[u8], rd: &[u8]) -> Vec<u8> {
+        let mut o = owner.to_vec();
+        o.extend(self.tc.to_be_bytes());
+        o.extend(self.cls.to_be_bytes());
+        o.extend(self.ottl.to_be_bytes());
+        o.extend((rd.len() as u16).to_be_bytes());
+        o.extend_from_slice(rd);
+        o
+    }
+
+    /// the reference: RFC 4035 §5.3.2 signed data (`None`: the RRSIG must not be used / no wire form)
+    pub fn ref_signed_data(&self) -> Option<Vec<u8>> {
+        let owner = self.ref_owner()?;
+        let mut set = BTreeSet::new(); // distinct, sorted as left-justified octet strings
+        for r in self.rrset() {
+            set.insert(r.rd.ref_canon()?);
+        }
+        let mut o = self.ref_prefix();
+        for rd in &set {
+            o.extend(self.ref_rr(&owner, rd));
+        }
+        Some(o)
+    }
+
+    /// (dup, ttl, case): which hypotheses of `tbs_eq_spec_partial` the collected RRset violates
+    fn classes(&self, keys: &[Vec<u8>]) -> (bool, bool, bool) {
+        let rr = self.rrset();
+        let canon: Vec<Option<Vec<u8>>> = rr.iter().map(|r| r.rd.ref_canon()).collect();
+        let mut dup = false;
+        for i in 0..canon.len() {
+            for j in i + 1..canon.len() {
+                dup |= canon[i] == canon[j];
+            }
+        }
+        let ttl = rr.iter().any(|r| r.ttl != rr[0].ttl);
+        let case = canon.iter().zip(keys).any(|(c, k)| c.as_ref() != Some(k));
+        (dup, ttl, case)
+    }
+}
+
+/// which of the pre-repair deviations (repaired in /repo 628570a) an order/duplication difference
+/// would look like — used only to word the violation; none of them is tolerated any more
+fn class_of(d: (bool, bool, bool)) -> &'static str {
+    match d {
+        (true, _, _) => "tbs-duplicate-rr-kept",
+        (false, true, _) => "tbs-order-ttl-before-rdata",
+        (false, false, true) => "tbs-order-noncanonical-rdata-case",
+        _ => "",
+    }
+}
+
+/// `bytes` = prefix ++ the canonical RRs of *all* collected records (duplicates included) in some order
+fn is_reordering(c: &Case, bytes: &[u8]) -> bool {
+    let Some(owner) = c.ref_owner() else { return false };
+    let prefix = c.ref_prefix();
+    if !bytes.starts_with(&prefix) {
+        return false;
+    }
+    let mut blocks: Vec<Vec<u8>> = vec![];
+    for r in c.rrset() {
+        match r.rd.ref_canon() {
+            Some(rd) => blocks.push(c.ref_rr(&owner, &rd)),
+            None => return false,
+        }
+    }
+    let mut rest = &bytes[prefix.len()..];
+    while !rest.is_empty() {
+        match blocks.iter().position(|b| rest.starts_with(b)) {
+            Some(i) => {
+                rest = &rest[blocks[i].len()..];
+                blocks.swap_remove(i);
+            }
+            None => return false,
+        }
+    }
+    blocks.is_empty()
+}
+
+// ------------------------------------------------------------------ keys
+
+pub struct Key {
+    pub alg: Algorithm,
+    pub key: Box<dyn SigningKey>,
+    pub dnskey: DNSKEY,
+    pub tag: u16,
+}
+
+const RSA_PK8: &[u8] = include_bytes!("/repo/crates/proto/tests/test-data/rsa-2048-private-key-1.pk8");
+
+pub fn sign_keys() -> &'static Vec<Key> {
+    static K: OnceLock<Vec<Key>> = OnceLock::new();
+    K.get_or_init(|| {
+        let mut v: Vec<(Algorithm, Box<dyn SigningKey>)> = vec![];
+        let pk = Ed25519SigningKey::generate_pkcs8().expect("ed25519");
+        v.push((Algorithm::ED25519, Box::new(Ed25519SigningKey::from_pkcs8(&pk).expect("ed25519"))));
+        for alg in [Algorithm::ECDSAP256SHA256, Algorithm::ECDSAP384SHA384] {
+            let pk = EcdsaSigningKey::generate_pkcs8(alg).expect("ecdsa");
+            v.push((alg, Box::new(EcdsaSigningKey::from_pkcs8(&pk, alg).expect("ecdsa"))));
+        }
+        for alg in [Algorithm::RSASHA256, Algorithm::RSASHA512] {
+            let k = RsaSigningKey::from_pkcs8(&PrivatePkcs8KeyDer::from(RSA_PK8), alg).expect("rsa");
+            v.push((alg, Box::new(k)));
+        }
+        v.into_iter()
+            .map(|(alg, key)| {
+                let dnskey = DNSKEY::from_key(&key.to_public_key().expect("public key"));
+                let tag = dnskey.calculate_key_tag().expect("tag");
+                Key { alg, key, dnskey, tag }
+            })
+            .collect()
+    })
+}
+
+// ------------------------------------------------------------------ exec
+
+pub fn exec(line: &str, rec: &mut Recorder) {
+    let t: Vec<&str> = line.split_whitespace().collect();
+    if t.is_empty() {
+        return;
+    }
+    let r = catch(|| exec_inner(&t));
+    match r {
+        Ok(Some(o)) => {
+            if o.out == "~" {
+                rec.impl_only += 1;
+            }
+            let idx = rec.case(o.line, o.out);
+            rec.stat(&format!("op.{}", t[0]));
+            for s in o.stats {
+                rec.stat(&s);
+            }
+            if o.nontrivial {
+                rec.nontrivial(idx);
+            }
+            for (what, class) in o.fails {
+                rec.fail(idx, what, &class);
+            }
+        }
+        Ok(None) => rec.stat("skipped.unparsable-case"),
+        Err(p) => {
+            let idx = rec.case(line.to_string(), format!("panic {p}"));
+            rec.fail(idx, format!("panic: {p}"), "");
+        }
+    }
+}
+
+struct Out {
+    line: String,
+    out: String,
+    fails: Vec<(String, String)>,
+    stats: Vec<String>,
+    nontrivial: bool,
+}
+
+fn kind_name(c: &Case) -> String {
+    match c.tc {
+        T_A => "A".into(),
+        T_AAAA => "AAAA".into(),
+        T_NS => "NS".into(),
+        T_CNAME => "CNAME".into(),
+        T_PTR => "PTR".into(),
+        T_MX => "MX".into(),
+        T_SOA => "SOA".into(),
+        T_SRV => "SRV".into(),
+        T_TXT => "TXT".into(),
+        t => format!("opaque-{t}"),
+    }
+}
+
+fn exec_inner(t: &[&str]) -> Option<Out> {
+    if t[0] == "rdata" {
+        let [_, ty, rd] = t else { return None };
+        let ty: u16 = ty.parse().ok()?;
+        let rd = RD::parse(rd)?;
+        let real = rd.to_rdata(ty)?;
+        let (k, c) = (real_key(&real), real_canon(&real));
+        let mut fails = vec![];
+        if c != rd.ref_canon() {
+            fails.push((
+                format!("canonical RDATA (canonical_form emit) differs from RFC 4034 §6.2: got {:?}", c.as_ref().map(|c| hex(c))),
+                String::new(),
+            ));
+        }
+        return Some(Out {
+            line: format!("rdata {ty} {}", rd.tok(ty)?),
+            out: format!("{} {}", hex(&k), c.as_ref().map(|c| hex(c)).unwrap_or("none".into())),
+            fails,
+            stats: vec![],
+            nontrivial: c.as_ref() != Some(&k),
+        });
+    }
+    if !["tbs", "spec", "class", "sv"].contains(&t[0]) {
+        return None;
+    }
+    let c = Case::parse(&t[1..])?;
+    let line = format!("{} {}", t[0], c.args()?); // normalised (opaque key/canon recomputed)
+    let name = c.name.to_name()?;
+    let input = c.input()?;
+    let class = DNSClass::from(c.cls);
+    let records: Vec<Record> = c.recs.iter().map(|r| r.to_record()).collect::<Option<Vec<_>>>()?;
+    let rrset = c.rrset();
+    // sort keys of the collected records, by the real code
+    let keys: Vec<Vec<u8>> = rrset.iter().map(|r| real_key(&r.rd.to_rdata(r.rtype).unwrap())).collect();
+    let dev = c.classes(&keys);
+    let expected = c.ref_signed_data();
+    let big = expected.as_ref().map(|e| e.len() > 65535).unwrap_or(false);
+    let mut fails: Vec<(String, String)> = vec![];
+    let mut stats = vec![];
+    match t[0] {
+        "spec" => Some(Out {
+            line,
+            out: match &expected {
+                Some(b) => format!("some {}", hex(b)),
+                None => "none".into(),
+            },
+            fails,
+            stats,
+            nontrivial: false,
+        }),
+        "class" => Some(Out {
+            line,
+            out: format!("{} {} {}", b(dev.0), b(dev.1), b(dev.2)),
+            fails,
+            stats,
+            nontrivial: false,
+        }),
+        "tbs" => {
+            let got = TBS::from_input(&name, class, &input, records.iter()).map(|t| t.as_ref().to_vec());
+            stats.push(format!("type.{}", kind_name(&c)));
+            stats.push(format!("rrset.size.{}", rrset.len().min(7)));
+            stats.push(format!("noise.records.{}", (c.recs.len() - rrset.len()).min(3)));
+            stats.push(format!(
+                "labels.{}",
+                match (c.labels as usize).cmp(&c.owner_label_count()) {
+                    std::cmp::Ordering::Less => "lt",
+                    std::cmp::Ordering::Equal => "eq",
+                    std::cmp::Ordering::Greater => "gt",
+                }
+            ));
+            if c.name.labels.first().map(|l| l == b"*").unwrap_or(false) {
+                stats.push("owner.wildcard".into());
+            }
+            if !c.name.is_lower() || rrset.iter().any(|r| !r.name.is_lower()) {
+                stats.push("owner.mixed-case".into());
+            }
+            stats.push(format!("hyp.dup={} ttl={} case={}", b(dev.0), b(dev.1), b(dev.2)));
+            stats.push(format!("result.{}", if got.is_ok() { "ok" } else { "err" }));
+            // RData::cmp is the order of the to_bytes() keys
+            for i in 0..rrset.len() {
+                for j in 0..rrset.len() {
+                    let (a, bb) = (rrset[i].rd.to_rdata(rrset[i].rtype).unwrap(), rrset[j].rd.to_rdata(rrset[j].rtype).unwrap());
+                    if a.cmp(&bb) != keys[i].cmp(&keys[j]) {
+                        fails.push(("RData::cmp is not the order of the default-encoder bytes".into(), String::new()));
+                    }
+                }
+            }
+            if big {
+                stats.push("expected.over-64KiB (no expectation)".into());
+            } else {
+                match (&got, &expected) {
+                    (Ok(g), Some(e)) if g == e => {}
+                    (Err(_), None) => {}
+                    (Ok(g), Some(e)) => {
+                        let cl = if is_reordering(&c, g) { class_of(dev) } else { "" };
+                        stats.push(format!("deviation.{}", if cl.is_empty() { "other" } else { cl }));
+                        fails.push((
+                            format!(
+                                "TBS::from_input differs from the RFC 4035 §5.3.2 signed data ({} vs {} bytes; looks like regression {}; dup={} ttl-differs={} rdata-key-noncanonical={})",
+                                g.len(),
+                                e.len(),
+                                if cl.is_empty() { "none of the repaired ones" } else { cl },
+                                dev.0,
+                                dev.1,
+                                dev.2
+                            ),
+                            String::new(),
+                        ));
+                    }
+                    (Ok(_), None) => fails.push(("TBS::from_input accepted an RRSIG whose Labels field exceeds the owner's label count / RDATA without wire form".into(), String::new())),
+                    (Err(_), Some(_)) => fails.push(("TBS::from_input failed on a well-formed RRset".into(), String::new())),
+                }
+            }
+            let nontrivial = got.is_ok() && rrset.len() >= 2;
+            Some(Out { line, out: res_tok(&got, |g| hex(g)), fails, stats, nontrivial })
+        }
+        _ => {
+            // sv: every supported algorithm
+            let mut nontrivial = false;
+            if !big {
+                for k in sign_keys() {
+                    let mut ck = c.clone();
+                    ck.alg = u8::from(k.alg);
+                    ck.tag = k.tag;
+                    let inp = ck.input()?;
+                    let expected = ck.ref_signed_data();
+                    let got = TBS::from_input(&name, class, &inp, records.iter());
+                    // conforming third-party signer: signs the reference bytes
+                    if let Some(e) = &expected {
+                        let sig = k.key.sign(&TBS::from(&e[..])).expect("sign");
+                        let rrsig = RRSIG::from_sig(inp.clone(), sig);
+                        let v = k.dnskey.verify_rrsig(&name, class, &rrsig, records.iter());
+                        stats.push(format!("sv.third-party.{:?}.{}", k.alg, if v.is_ok() { "verified" } else { "rejected" }));
+                        if v.is_err() {
+                            let same = got.as_ref().map(|g| g.as_ref() == &e[..]).unwrap_or(false);
+                            let cl = match &got {
+                                Ok(g) if !same && is_reordering(&ck, g.as_ref()) => class_of(dev),
+                                _ => "",
+                            };
+                            fails.push((
+                                format!("RRset signed by a conforming signer ({:?}) does not verify with DNSKEY::verify_rrsig (looks like regression {}; dup={} ttl-differs={} rdata-key-noncanonical={})", k.alg, if cl.is_empty() { "none of the repaired ones" } else { cl }, dev.0, dev.1, dev.2),
+                                String::new(),
+                            ));
+                        } else {
+                            nontrivial = true;
+                        }
+                    } else {
+                        let rrsig = RRSIG::from_sig(inp.clone(), vec![0u8; 64]);
+                        if k.dnskey.verify_rrsig(&name, class, &rrsig, records.iter()).is_ok() {
+                            fails.push(("verify_rrsig accepted an RRSIG that must not be used".into(), String::new()));
+                        }
+                    }
+                    // built-in signer → built-in verifier, records presented in another order
+                    if let Ok(tbs) = &got {
+                        let sig = k.key.sign(tbs).expect("sign");
+                        let rrsig = RRSIG::from_sig(inp.clone(), sig);
+                        let v1 = k.dnskey.verify_rrsig(&name, class, &rrsig, records.iter());
+                        let v2 = k.dnskey.verify_rrsig(&name, class, &rrsig, records.iter().rev());
+                        stats.push(format!("sv.built-in.{:?}.{}", k.alg, if v1.is_ok() && v2.is_ok() { "verified" } else { "rejected" }));
+                        if v1.is_err() {
+                            fails.push((format!("built-in signature ({:?}) does not verify with the built-in verifier", k.alg), String::new()));
+                        }
+                        if v2.is_err() {
+                            fails.push((format!("built-in signature ({:?}) does not verify when the records are presented in reverse order", k.alg), String::new()));
+                        }
+                    }
+                }
+            }
+            Some(Out { line, out: "~".into(), fails, stats, nontrivial })
+        }
+    }
+}
+
+// ------------------------------------------------------------------ generator
+
+const WORDS: &[&str] = &["example", "Example", "EXAMPLE", "com", "COM", "net", "Net", "ns", "NS", "ns1", "mail", "Mail", "a", "A", "b", "z", "Z", "www", "_tcp", "x-y", "0", "host"];
+
+fn gen_label(r: &mut Rng) -> Vec<u8> {
+    match r.below(12) {
+        0 => {
+            let n = r.range(1, 5) as usize;
+            r.bytes(n)
+        }
+        1 => vec![*r.pick(&[b'A', b'Z', b'a', b'z', b'@', b'[', b'`', b'{', 0, 255])],
+        _ => r.pick(WORDS).as_bytes().to_vec(),
+    }
+}
+
+pub fn gen_n(r: &mut Rng) -> N {
+    let n = match r.below(10) {
+        0 => 0,
+        1 | 2 => 1,
+        3..=6 => 2,
+        7 | 8 => 3,
+        _ => r.range(4, 6),
+    };
+    N { labels: (0..n).map(|_| gen_label(r)).collect(), fqdn: !r.chance(1, 25) }
+}
+
+pub fn flip_case(r: &mut Rng, n: &N, p: u64) -> N {
+    N {
+        labels: n
+            .labels
+            .iter()
+            .map(|l| l.iter().map(|b| if b.is_ascii_alphabetic() && r.chance(p, 100) { b ^ 0x20 } else { *b }).collect())
+            .collect(),
+        fqdn: n.fqdn,
+    }
+}
+
+pub fn lower_n(n: &N) -> N {
+    N { labels: n.lower_labels(), fqdn: n.fqdn }
+}
+
+/// a pool of RDATA names with shared suffixes (SOA compression) and case variants
+pub fn name_pool(r: &mut Rng) -> Vec<N> {
+    let base = gen_n(r);
+    let mut v = vec![base.clone()];
+    for _ in 0..4 {
+        let mut n = base.clone();
+        match r.below(4) {
+            0 => n.labels.insert(0, gen_label(r)),
+            1 => {
+                if !n.labels.is_empty() {
+                    let i = r.below(n.labels.len() as u64) as usize;
+                    n.labels[i] = gen_label(r);
+                }
+            }
+            2 => n = flip_case(r, &n, 50),
+            _ => n = gen_n(r),
+        }
+        n.fqdn = true;
+        v.push(n);
+    }
+    v
+}
+
+const OPAQUE_TYPES: &[u16] = &[48, 43, 52, 65280, 10, 13, 47, 61, 44, 99];
+
+fn gen_opaque_raw(r: &mut Rng, ty: u16) -> Vec<u8> {
+    match ty {
+        48 => {
+            // DNSKEY: flags, protocol 3, algorithm, key
+            let mut o = vec![*r.pick(&[0u8, 1]), *r.pick(&[0u8, 1, 0x80, 0x81]), 3, *r.pick(&[8u8, 13, 15])];
+            let n = r.range(4, 40) as usize;
+            o.extend(r.bytes(n));
+            o
+        }
+        43 => {
+            let mut o = r.bytes(2);
+            o.extend([*r.pick(&[8u8, 13]), *r.pick(&[1u8, 2])]);
+            o.extend(r.bytes(32));
+            o
+        }
+        52 => {
+            let mut o = vec![r.below(4) as u8, r.below(2) as u8, r.below(3) as u8];
+            let n = r.range(1, 32) as usize;
+            o.extend(r.bytes(n));
+            o
+        }
+        13 => {
+            let mut o = vec![];
+            for _ in 0..2 {
+                let s = r.pick(WORDS).as_bytes();
+                o.push(s.len() as u8);
+                o.extend_from_slice(s);
+            }
+            o
+        }
+        47 => {
+            // NSEC: next name (case preserved, RFC 6840 §5.1), type bitmap window 0
+            let mut n = gen_n(r);
+            n.fqdn = true;
+            let mut o = wire(&n.labels);
+            let len = r.range(1, 6) as usize;
+            let mut bm = r.bytes(len);
+            if bm[len - 1] == 0 {
+                bm[len - 1] = 0x40;
+            }
+            o.extend([0u8, len as u8]);
+            o.extend(bm);
+            o
+        }
+        44 => {
+            let mut o = vec![r.below(5) as u8, r.below(3) as u8];
+            let n = r.range(1, 32) as usize;
+            o.extend(r.bytes(n));
+            o
+        }
+        _ => {
+            let n = *r.pick(&[0usize, 1, 2, 5, 17, 40]);
+            let small = r.chance(1, 2);
+            (0..n).map(|_| if small { *r.pick(&[0u8, 1, 0x41, 0x61, 0xff]) } else { r.byte() }).collect()
+        }
+    }
+}
+
+pub fn gen_rd(r: &mut Rng, tc: u16, pool: &[N], clean: bool) -> RD {
+    let mut nm = |r: &mut Rng| {
+        let n = r.pick(pool).clone();
+        if clean { lower_n(&n) } else if r.chance(1, 2) { flip_case(r, &n, 40) } else { n }
+    };
+    let small = |r: &mut Rng| r.below(3) as u16 * if r.chance(1, 4) { 256 } else { 1 };
+    match tc {
+        T_A => RD::A(vec![*r.pick(&[10u8, 192, 0]), r.below(2) as u8, r.below(2) as u8, r.below(4) as u8]),
+        T_AAAA => {
+            let mut o = vec![0x20, 0x01, 0x0d, 0xb8];
+            o.extend((0..12).map(|_| *r.pick(&[0u8, 0, 1, 0xff])));
+            RD::Aaaa(o)
+        }
+        T_NS => RD::Ns(nm(r)),
+        T_CNAME => RD::Cname(nm(r)),
+        T_PTR => RD::Ptr(nm(r)),
+        T_MX => RD::Mx(small(r), nm(r)),
+        T_SOA => {
+            let big = |r: &mut Rng| *r.pick(&[0u32, 1, 3600, 0x7fff_ffff, 0x8000_0000, 0xffff_ffff]);
+            RD::Soa(nm(r), nm(r), big(r), big(r), big(r), big(r), big(r))
+        }
+        T_SRV => RD::Srv(small(r), small(r), *r.pick(&[53u16, 443]), nm(r)),
+        T_TXT => {
+            let n = r.below(4) as usize;
+            RD::Txt(
+                (0..n)
+                    .map(|_| match r.below(8) {
+                        0 => vec![],
+                        1 => {
+                            let k = *r.pick(&[255usize, 200]);
+                            vec![b'x'; k]
+                        }
+                        2 if !clean => vec![b'y'; 256],
+                        _ => r.pick(WORDS).as_bytes().to_vec(),
+                    })
+                    .collect(),
+            )
+        }
+        t => {
+            for _ in 0..8 {
+                let raw = gen_opaque_raw(r, t);
+                let rd = RD::Op(raw.clone());
+                // keep only RDATA that the real decoder accepts and re-emits unchanged
+                if let Some(real) = rd.to_rdata(t) {
+                    if real_key(&real) == raw {
+                        return rd;
+                    }
+                }
+            }
+            RD::Op(vec![])
+        }
+    }
+}
+
+fn gen_case(r: &mut Rng) -> Case {
+    let tiers = [T_A, T_AAAA, T_NS, T_CNAME, T_PTR, T_MX, T_SOA, T_SRV, T_TXT];
+    let tc = if r.chance(1, 5) { *r.pick(OPAQUE_TYPES) } else { *r.pick(&tiers) };
+    let clean = r.chance(1, 2);
+    let mut name = gen_n(r);
+    if r.chance(1, 6) {
+        name.labels.insert(0, b"*".to_vec());
+    }
+    if name.labels.len() > 1 && r.chance(1, 30) {
+        name.labels[1] = b"*".to_vec();
+    }
+    let cls = if r.chance(1, 12) { *r.pick(&[3u16, 4, 254, 255, 2]) } else { 1 };
+    let pool = name_pool(r);
+    let n = match r.below(10) {
+        0 => 1,
+        1..=3 => 2,
+        4..=6 => 3,
+        7 => 4,
+        8 => 5,
+        _ => 6,
+    };
+    let base_ttl = *r.pick(&[0u32, 60, 300, 3600, 86400, 0xffff_ffff]);
+    let mut recs: Vec<Rec> = vec![];
+    let mut tries = 0;
+    while recs.len() < n && tries < 40 {
+        tries += 1;
+        let rd = gen_rd(r, tc, &pool, clean);
+        if clean {
+            // clean cases satisfy the three hypotheses: distinct canonical RDATA
+            if recs.iter().any(|x| x.rd.ref_canon() == rd.ref_canon()) {
+                continue;
+            }
+        }
+        let ttl = if !clean && r.chance(1, 3) { *r.pick(&[0u32, 1, 59, 61, 7200]) } else { base_ttl };
+        recs.push(Rec { name: flip_case(r, &name, 30), rtype: tc, cls, ttl, rd });
+    }
+    if !clean && r.chance(1, 3) && !recs.is_empty() {
+        // duplicate: exact copy, or a copy whose RDATA differs in letter case / TTL only
+        let mut d = r.pick(&recs).clone();
+        match r.below(3) {
+            0 => {}
+            1 => {
+                d.rd = match d.rd {
+                    RD::Ns(n) => RD::Ns(flip_case(r, &n, 50)),
+                    RD::Cname(n) => RD::Cname(flip_case(r, &n, 50)),
+                    RD::Ptr(n) => RD::Ptr(flip_case(r, &n, 50)),
+                    RD::Mx(p, n) => RD::Mx(p, flip_case(r, &n, 50)),
+                    RD::Srv(a, b2, c, n) => RD::Srv(a, b2, c, flip_case(r, &n, 50)),
+                    RD::Soa(m, rn, a, b2, c, d2, e) => RD::Soa(flip_case(r, &m, 50), rn, a, b2, c, d2, e),
+                    x => x,
+                }
+            }
+            _ => d.ttl = d.ttl.wrapping_add(1),
+        }
+        recs.push(d);
+    }
+    // noise: records that must not be collected
+    if r.chance(1, 4) {
+        let mut x = recs.first().cloned().unwrap_or(Rec { name: name.clone(), rtype: T_A, cls, ttl: 1, rd: RD::A(vec![1, 2, 3, 4]) });
+        match r.below(4) {
+            0 => x.name.labels.insert(0, b"sub".to_vec()),
+            1 => x.cls = if cls == 1 { 3 } else { 1 },
+            2 => {
+                x.rtype = if tc == T_A { T_AAAA } else { T_A };
+                x.rd = gen_rd(r, x.rtype, &pool, true);
+            }
+            _ => x.name.fqdn = !x.name.fqdn,
+        }
+        recs.push(x);
+    }
+    // shuffle
+    for i in (1..recs.len()).rev() {
+        let j = r.below(i as u64 + 1) as usize;
+        recs.swap(i, j);
+    }
+    let cnt = {
+        let n = name.labels.len();
+        if name.labels.first().map(|l| l == b"*").unwrap_or(false) { n - 1 } else { n }
+    } as u64;
+    let labels = match r.below(20) {
+        0..=12 => cnt,
+        13..=15 => r.below(cnt + 1),
+        16 | 17 => cnt + r.range(1, 3),
+        18 => 255,
+        _ => r.below(8),
+    } as u8;
+    let mut signer = gen_n(r);
+    signer.fqdn = true;
+    Case {
+        name,
+        cls,
+        tc,
+        alg: *r.pick(&[8u8, 10, 13, 14, 15, 5, 0, 253, 255]),
+        labels,
+        ottl: *r.pick(&[0u32, 300, 3600, 86400, 0x8000_0000, 0xffff_ffff]),
+        exp: r.next() as u32,
+        inc: r.next() as u32,
+        tag: r.next() as u16,
+        signer,
+        recs,
+    }
+}
+
+pub fn nm(s: &str) -> N {
+    N { labels: s.trim_end_matches('.').split('.').filter(|l| !l.is_empty()).map(|l| l.as_bytes().to_vec()).collect(), fqdn: true }
+}
+
+/// hand-built cases: the three repaired deviations (regression), SOA compression, > 64 candidate labels, 64 KiB
+fn hand_built() -> Vec<Case> {
+    let base = |name: &str, tc: u16, recs: Vec<(u32, RD)>| {
+        let n = nm(name);
+        Case {
+            name: n.clone(),
+            cls: 1,
+            tc,
+            alg: 13,
+            labels: n.labels.len() as u8,
+            ottl: 3600,
+            exp: 1_700_003_600,
+            inc: 1_700_000_000,
+            tag: 12345,
+            signer: nm("Example.COM."),
+            recs: recs.into_iter().map(|(ttl, rd)| Rec { name: n.clone(), rtype: tc, cls: 1, ttl, rd }).collect(),
+        }
+    };
+    let mut v = vec![
+        // RDATA letter case decides the order (Example.net before example.com)
+        base("example.com.", T_NS, vec![(3600, RD::Ns(nm("ns.Example.net."))), (3600, RD::Ns(nm("ns.example.com.")))]),
+        // duplicate record kept
+        base("example.com.", T_NS, vec![(3600, RD::Ns(nm("ns.example.com."))), (3600, RD::Ns(nm("ns.example.com.")))]),
+        // TTL looked at before the RDATA
+        base("example.com.", T_A, vec![(300, RD::A(vec![10, 0, 0, 2])), (60, RD::A(vec![10, 0, 0, 9]))]),
+        // SOA: rname compresses against mname in the sort key only
+        base(
+            "example.com.",
+            T_SOA,
+            vec![
+                (3600, RD::Soa(nm("ns.example.com."), nm("admin.example.com."), 1, 2, 3, 4, 5)),
+                (3600, RD::Soa(nm("ns.example.com."), nm("admin.Example.com."), 1, 2, 3, 4, 5)),
+                (3600, RD::Soa(nm("ns.example.com."), nm("admin.example.com.zz."), 1, 2, 3, 4, 5)),
+            ],
+        ),
+    ];
+    // mname with 100 labels: only the first 64 suffixes are compression candidates
+    let long = N { labels: (0..100).map(|i| vec![b'a' + (i % 26) as u8]).collect(), fqdn: true };
+    let deep = N { labels: long.labels[70..].to_vec(), fqdn: true };
+    let shallow = N { labels: long.labels[10..].to_vec(), fqdn: true };
+    v.push(base(
+        "example.com.",
+        T_SOA,
+        vec![(1, RD::Soa(long.clone(), deep, 1, 2, 3, 4, 5)), (1, RD::Soa(long.clone(), shallow, 1, 2, 3, 4, 5)), (1, RD::Soa(nm("."), nm("."), 0, 0, 0, 0, 0))],
+    ));
+    // signed data beyond the 65 535-byte encoder buffer
+    let big_txt = |c: u8| RD::Txt((0..43).map(|_| vec![c; 255]).collect());
+    v.push(base("example.com.", T_TXT, (0..6).map(|i| (5, big_txt(b'a' + i))).collect()));
+    v.push(base("example.com.", T_TXT, (0..5).map(|i| (5, big_txt(b'a' + i))).collect()));
+    // wildcard owner and Labels field
+    for labels in 0..5u8 {
+        let mut c = base("*.Sub.example.com.", T_A, vec![(5, RD::A(vec![1, 2, 3, 4])), (5, RD::A(vec![1, 2, 3, 3]))]);
+        c.labels = labels;
+        v.push(c);
+        let mut c = base("a.b.example.com.", T_MX, vec![(5, RD::Mx(10, nm("Mail.example.com."))), (5, RD::Mx(9, nm("mail.example.com.")))]);
+        c.labels = labels;
+        v.push(c);
+    }
+    // root owner, empty RRset
+    v.push(base(".", T_NS, vec![(5, RD::Ns(nm("a.root-servers.net."))), (5, RD::Ns(nm("B.root-servers.net.")))]));
+    v.push(base("example.com.", T_NS, vec![]));
+    v
+}
+
+fn emit_case(c: &Case, rec: &mut Recorder, with_rdata: bool) {
+    let Some(args) = c.args() else {
+        rec.stat("skipped.unbuildable-case");
+        return;
+    };
+    for op in ["tbs", "spec", "class", "sv"] {
+        exec(&format!("{op} {args}"), rec);
+    }
+    if with_rdata {
+        for r in c.rrset().iter().take(3) {
+            if let Some(t) = r.rd.tok(r.rtype) {
+                exec(&format!("rdata {} {}", r.rtype, t), rec);
+            }
+        }
+    }
+}
+
+pub fn run(o: &Opts, rec: &mut Recorder) {
+    rec.rule = "RRsets of every modelled type (A, AAAA, NS, CNAME, PTR, MX, SOA, SRV, TXT) and opaque types (DNSKEY, DS, TLSA, NSEC, HINFO, SSHFP, NULL, OPENPGPKEY, unknown), 1-6 records + duplicates + foreign records, shuffled, mixed-case owner and RDATA names, differing TTLs, Labels field =/</> owner labels, wildcard owners, random RRSIG parameters; non-trivial: (tbs) TBS::from_input returned Ok for an RRset of >= 2 collected records, (sv) a conforming third-party signature verified, (rdata) the sort key differs from the canonical RDATA; distinct by case line".into();
+    for l in o.pre_lines.clone() {
+        exec(&l, rec);
+    }
+    rec.corpus_cases = rec.cases.len();
+    if o.replay_only {
+        return;
+    }
+    for c in hand_built() {
+        emit_case(&c, rec, true);
+    }
+    let mut r = Rng::new(o.seed);
+    let n = o.n(2500, 60_000);
+    for _ in 0..n {
+        let c = gen_case(&mut r);
+        emit_case(&c, rec, true);
+    }
 }
